@@ -359,6 +359,16 @@ def find_shallow(
     return shallow, not_shallow
 
 
+def _commit_parents(commit: Commit) -> list[ObjectID]:
+    """Default way of getting a commit's parents: the ones it records.
+
+    Used as a recognisable default, so that code with a faster source for
+    those same parents (the commit-graph) knows when a caller asked for
+    something else (grafts, shallow boundaries).
+    """
+    return commit.parents
+
+
 def get_depth(
     store: ObjectContainer,
     head: ObjectID,
@@ -681,7 +691,7 @@ class BaseObjectStore:
         shallow: Set[ObjectID] | None = None,
         progress: Callable[..., None] | None = None,
         get_tagged: Callable[[], dict[ObjectID, ObjectID]] | None = None,
-        get_parents: Callable[..., list[ObjectID]] = lambda commit: commit.parents,
+        get_parents: Callable[..., list[ObjectID]] = _commit_parents,
     ) -> Iterator[tuple[ObjectID, PackHint | None]]:
         """Find the missing objects required for a set of revisions.
 
@@ -3221,7 +3231,7 @@ class MissingObjectFinder:
         shallow: Set[ObjectID] | None = None,
         progress: Callable[[bytes], None] | None = None,
         get_tagged: Callable[[], dict[ObjectID, ObjectID]] | None = None,
-        get_parents: Callable[[Commit], list[ObjectID]] = lambda commit: commit.parents,
+        get_parents: Callable[[Commit], list[ObjectID]] = _commit_parents,
     ) -> None:
         """Initialize a MissingObjectFinder.
 
@@ -3850,7 +3860,7 @@ def _collect_ancestors(
     heads: Iterable[ObjectID],
     common: frozenset[ObjectID] = frozenset(),
     shallow: frozenset[ObjectID] = frozenset(),
-    get_parents: Callable[[Commit], list[ObjectID]] = lambda commit: commit.parents,
+    get_parents: Callable[[Commit], list[ObjectID]] = _commit_parents,
 ) -> tuple[set[ObjectID], set[ObjectID]]:
     """Collect all ancestors of heads up to (excluding) those in common.
 
@@ -3883,9 +3893,11 @@ def _collect_ancestors(
             if e in shallow:
                 continue
 
-            # Try to use commit graph for parent lookup
+            # Try to use commit graph for parent lookup. It records the
+            # parents a commit object names, so it cannot stand in for a
+            # caller-supplied get_parents (grafts, shallow boundaries).
             parents = None
-            if commit_graph:
+            if commit_graph and get_parents is _commit_parents:
                 parents = commit_graph.get_parents(e)
 
             if parents is None:
